@@ -335,7 +335,9 @@ def clear_coherent(F):
                                   "is None" if want == "none" else "is empty"))
     r.count("cleared_modes", n)
     if n < len(modes):
-        raise CheckError("clear_instr/has_instr: only %d of %d modes paired" % (n, len(modes)))
+        # a mode that has_instr does not test at all (R-HAS-INSTR reports that) or that clear_instr handles in a shape this
+        # rule does not read: nothing contradicts the pairing for it
+        r.undecided("clear_instr/has_instr: %d of %d modes paired; the others were not analysed" % (n, len(modes)))
     return r
 
 
